@@ -11,7 +11,7 @@ from __future__ import annotations
 import itertools
 from typing import Any, Callable, Dict, List, Optional, Sequence, Set, Tuple
 
-from sx.engine import Ctx, SymVal, lift, vapp
+from sx.engine import Ctx, SXControl, SymVal, lift, vapp
 
 
 class Counter:
@@ -114,6 +114,23 @@ def watchdog(prop_of: Callable[[Any], str]) -> Callable[[Callable[..., Any]], Ca
             except E.Spin as e:
                 E.watch(None)
                 c.check(False, "a call does not terminate (scheduler spins): %s" % e, prop=prop_of(cfg))
+                raise
+            except SXControl:
+                raise
+            except BaseException as e:  # noqa: BLE001
+                # every program / history the harness generates is valid and every documented refusal is handled where it
+                # is expected: an exception that escapes to here was raised by the library on a valid use
+                import traceback
+
+                E.watch(None)
+                if isinstance(e, (KeyboardInterrupt, SystemExit)):
+                    raise
+                tb = traceback.extract_tb(e.__traceback__)
+                where = ["%s:%d %s" % (f.filename, f.lineno, f.name) for f in tb[-4:]]
+                in_lib = any("/tawazi/" in f.filename for f in tb)
+                if not in_lib:
+                    raise  # a bug of the harness itself: never a verdict
+                c.check(False, "the library raised %r on a valid program / history" % (e,), prop=prop_of(cfg), data={"where": where})
                 raise
             finally:
                 E.watch(None)
